@@ -150,7 +150,6 @@ func (ts *treeStorage) GetRoster(id RosterID) *Roster {
 // Close forces cleaning goroutines to be shutdown
 func (ts *treeStorage) Close() {
 	ts.Lock()
-	defer ts.Unlock()
 
 	// prevent further call to remove because the server is closing anyway
 	ts.closed = true
@@ -159,7 +158,9 @@ func (ts *treeStorage) Close() {
 		close(c)
 		delete(ts.cancellations, k)
 	}
+	ts.Unlock()
 
+	// a cleaning goroutine whose timer just fired needs the lock to finish
 	ts.wg.Wait()
 }
 
